@@ -19,8 +19,14 @@ def _strategy(tier):
     return market_cases(max_ops=60 if tier == "quick" else 300, market_frac=4, batch_bias=True, match_weight=4)
 
 
+def _deep_strategy(tier):
+    # deep, mostly uncrossed books with many cancels from the middle, swept by drain probes
+    return market_cases(max_ops=60 if tier == "quick" else 300, market_frac=1, deep=True, toggles=False)
+
+
 PARTS = {"machine": {"check": make_check({"C03"}, _nt), "strategy": _strategy,
-                     "budget": {"quick": 3000, "thorough": 100000}}}
+                     "budget": {"quick": 3000, "thorough": 100000}},
+         "deep": {"check": make_check({"C03"}, _nt), "strategy": _deep_strategy, "budget": {"quick": 2000, "thorough": 60000}}}
 
 
 def vacuity(merged, tier):
